@@ -39,10 +39,15 @@ CHECKS = {
                      "part 'messagestore': MessageStore.openMessage on constructed log entries (every bit flip of one envelope, re-attributions, payload substitutions, other group); forgeries that need a fellow member's derived message key are in part 'secretstore' only"],
     ),
     "C02": dict(
-        harness="pkg__secretstore", run="TestVerifC02", level="model_checking",
+        level="model_checking",
+        parts=[
+            dict(name="ratchet", harness="pkg__secretstore", run="TestVerifC02"),
+            dict(name="concurrent", harness="pkg__secretstore", run="TestVerifC02Conc", variant="sched-secret", gomaxprocs=2, shards={"quick": 4, "thorough": 8}),
+        ],
         technique="explicit-state BFS over the receiver's complete datastore (clone + one real call per transition) against a reference ratchet model",
         rule="states = distinct full datastore dumps of the receiving secret store; every state is expanded with every open(k), register and re-register(older) transition; distinct classes = (group type, expectation class, outcome)",
-        assumptions=["windows 1..4 and n<=7 are enumerated; the default window of 100 is only touched by a 9-step scripted boundary walk",
+        assumptions=["part 'concurrent' (added after a sub-agent's change let two opens run under a shared lock): 2-3 tasks open messages of one sender at the same time on the real store under the controlled scheduler (scheduling points at the package's mutex operations and at every datastore operation of the receiver, preemption bound 2 / 3); afterwards every counter the reference calls openable must open",
+                     "windows 1..4 and n<=7 are enumerated; the default window of 100 is only touched by a 9-step scripted boundary walk",
                      "envelope content identifiers are digests of the envelope bytes",
                      "the secret store keeps no state outside the datastore handed to its constructor (so a datastore clone is a state clone)"],
     ),
